@@ -154,6 +154,10 @@ class Package(collections.namedtuple('Package', 'path, manifest')):
                     shutil.rmtree(path)
                 else:
                     path.unlink()
+                # forget the importers bound to the replaced content (ie zipimporter and its archive directory cache)
+                importlib.invalidate_caches()
+                for cached in [c for c in sys.path_importer_cache if pathlib.Path(c) == path or path in pathlib.Path(c).parents]:
+                    del sys.path_importer_cache[cached]
             return True
 
         path = pathlib.Path(path)
